@@ -81,7 +81,24 @@ def run_trace_judge(prop, cases, impl):
     return recs
 
 
-def judge(prop, case, ir, sr):
+XLINE = re.compile(rb"^X ")
+VERDICT = re.compile(rb"^[DRU] ")
+
+
+def _proj_lines(rec, rx):
+    return [l for l in _lines_of(canon_record(rec)) if rx.match(l)]
+
+
+def judge(prop, case, ir, sr, mr=None):
+    if prop in ("C06", "C11") and mr is not None:
+        rx = XLINE if prop == "C06" else VERDICT
+        for i in range(max(len(ir), len(mr))):
+            a = _proj_lines(ir[i], rx) if i < len(ir) else None
+            bb = _proj_lines(mr[i], rx) if i < len(mr) else None
+            if a != bb:
+                what = "queries" if prop == "C06" else "class / trusted user name"
+                return (i, "%s: %s differ from what the proved characterisation demands: got %r, expected %r" % (prop, what, a, bb))
+        return False
     if sr is None:
         return False
     for i, r in enumerate(sr):
@@ -810,15 +827,35 @@ THEOREMS = {
     "C01": ["Iauthd.Properties.C01_invariant", "Iauthd.Properties.C01_verdict_removes", "Iauthd.Properties.C01_unknown_id_inert",
             "Iauthd.Proto.accept_spec", "Iauthd.Proto.kill_spec", "Iauthd.Proto.gate_spec", "Iauthd.Proto.reqEvent_spec",
             "Iauthd.Proto.xqReply_spec", "Iauthd.Proto.withReq_inv"],
+    "C02": ["Iauthd.Properties.C02_counters", "Iauthd.Properties.C02_gate", "Iauthd.Properties.C02_gate_sets",
+            "Iauthd.Properties.C02_refusal_kills", "Iauthd.Proto.runOps_hold", "Iauthd.Proto.gate_condition_iff",
+            "Iauthd.Proto.xqVouch_hold", "Iauthd.Proto.xqCheckPassword_hold", "Iauthd.Proto.xqFinishPre_hold",
+            "Iauthd.Proto.holdsAfterPassword_spec"],
+    "C03": ["Iauthd.Properties.C03_gate_complete", "Iauthd.Properties.C03_counters", "Iauthd.Properties.C03_password_gated",
+            "Iauthd.Properties.C03_reply_gated", "Iauthd.Properties.C03_timeout_sticky", "Iauthd.Proto.runOps_hold",
+            "Iauthd.Proto.reqEvent_holdOut", "Iauthd.Proto.xqReply_holdOut", "Iauthd.Proto.gate_removes_if"],
+    "C04": ["Iauthd.Properties.C04_stray_tag", "Iauthd.Properties.C04_not_awaited", "Iauthd.Properties.C04_tag_exact",
+            "Iauthd.Properties.C04_others", "Iauthd.Proto.parseTag_range", "Iauthd.Proto.validateRequest_serial"],
+    "C05": ["Iauthd.Properties.C05_refusal", "Iauthd.Properties.C05_vouch", "Iauthd.Properties.C05_stamp_shape",
+            "Iauthd.Properties.C05_blank_is_plain", "Iauthd.Properties.C05_dronecheck_no_stamp", "Iauthd.Proto.okStamp_some"],
+    "C06": ["Iauthd.Properties.C06_query_iff", "Iauthd.Properties.C06_eligible", "Iauthd.Properties.C06_malformed_password",
+            "Iauthd.Properties.C06_limits", "Iauthd.Properties.C06_prefix"],
+    "C07": ["Iauthd.Properties.C07_event_frame", "Iauthd.Properties.C07_drop_frame", "Iauthd.Properties.C07_reply_frame",
+            "Iauthd.Properties.C07_announce_frame", "Iauthd.Properties.C07_handler_input", "Iauthd.Proto.withReq_others"],
     "C08": ["Iauthd.Properties.C08_no_fault", "Iauthd.Properties.C08_line_total", "Iauthd.Proto.stepChunk_total",
             "Iauthd.Proto.stepTimeout_total", "Iauthd.Proto.accept_ok", "Iauthd.Proto.gate_ok", "Iauthd.Proto.reqEvent_ok",
-            "Iauthd.Proto.xqReply_ok", "Iauthd.Proto.newClient_ok", "Iauthd.Addr.pton_safe"],
+            "Iauthd.Proto.xqReply_ok", "Iauthd.Proto.newClient_ok", "Iauthd.Proto.ptonC_safe", "Iauthd.Addr.pton_safe"],
+    "C09": ["Iauthd.Properties.C09_client_line", "Iauthd.Properties.C09_announced", "Iauthd.Properties.C09_address_text",
+            "Iauthd.Properties.C09_console_silent", "Iauthd.Addr.ntop_ref", "Iauthd.Addr.ntop_no_colon", "Iauthd.Addr.ntop_len"],
+    "C10": ["Iauthd.Properties.C10_handler_shrinks_only", "Iauthd.Properties.C10_announce", "Iauthd.Properties.C10_in_use_figure",
+            "Iauthd.Properties.C10_ids_unique"],
+    "C11": ["Iauthd.Properties.C11_first_match", "Iauthd.Properties.C11_no_match", "Iauthd.Properties.C11_criteria",
+            "Iauthd.Properties.C11_class_len", "Iauthd.Addr.mask_spec"],
+    "C17": ["Iauthd.Properties.C17_delivery", "Iauthd.Properties.C17_rules", "Iauthd.Properties.C17_inherit_same_rules",
+            "Iauthd.Properties.C17_timeout"],
 }
 
-PROP_IMPORTS = {
-    "C01": ["Iauthd.Properties.C01"],
-    "C08": ["Iauthd.Properties.C08"],
-}
+PROP_IMPORTS = {p: ["Iauthd.Properties." + p] for p in THEOREMS}
 
 
 def theorems(prop):
@@ -834,7 +871,7 @@ def lean_targets(prop):
 
 
 def lean_modules(prop):
-    return ["Iauthd.Proto.Text", "Iauthd.Proto.Model", "Iauthd.Proto.Handlers", "Iauthd.Proto.Step", "Iauthd.Proto.Hist", "Iauthd.Proto.Proofs", "Iauthd.Proto.Table"]
+    return ["Iauthd.Proto.Text", "Iauthd.Proto.Model", "Iauthd.Proto.Handlers", "Iauthd.Proto.Step", "Iauthd.Proto.Hist", "Iauthd.Proto.Proofs", "Iauthd.Proto.Table", "Iauthd.Proto.Props", "Iauthd.Proto.Holds", "Iauthd.Properties." + prop]
 
 
 def checker_cmd(prop):
